@@ -30,6 +30,8 @@
 (*                               region entry and stale between iterations); *)
 (*   ResultIndependentOfSchedule at the end every shared location holds the  *)
 (*                               value of the sequential execution;          *)
+(*   ImagesVisited               every supercell image of a primitive atom   *)
+(*                               is visited by the image-scan loops;         *)
 (*   NoOutOfBounds               the interpreter met no access outside the   *)
 (*                               arrays of the scenario.                     *)
 EXTENDS Integers, Sequences, FiniteSets, TLC, SequencesExt
@@ -66,6 +68,31 @@ KeepStep(st, e, cls, written) ==
   ELSE IF e[2] \in st.wp THEN st
        ELSE [out |-> Append(st.out, e), wp |-> IF e[1] = 1 THEN st.wp \cup {e[2]} ELSE st.wp]
 
+(* Index-level requirement of the kernels that scan the supercell for the     *)
+(* images of a primitive atom (`if (s2p_map[k] != p2s_map[j]) continue;`):   *)
+(* iteration (a, b) must read the force-constant block fc[p2s[a]][k] of      *)
+(* EVERY supercell atom k with s2p[k] = p2s[b], wherever those k lie in the  *)
+(* supercell order (the scenario's images are deliberately not consecutive); *)
+(* transform_dynmat_to_fc must write the whole block fc[fc_index_map[a]][j]. *)
+(* The set of required locations is defined here from the scenario's maps;   *)
+(* the accesses are what the interpreter logged from the C code.             *)
+ScanOK(s) ==
+  LET sc == Sites[s].scan
+      acc == Sites[s].acc
+      want == IF sc.kind = "rowwrite" THEN 1 ELSE 0
+      Block(a, k) == {sc.p2s[a + 1] * sc.ns * 9 + k * 9 + c : c \in 0..8}
+      Images(b) == {k \in 0..(sc.ns - 1) : sc.s2p[k + 1] = sc.p2s[b + 1]}
+      Need(v) ==
+        IF sc.kind = "pair" THEN UNION {Block(v \div sc.np, k) : k \in Images(v % sc.np)}
+        ELSE IF sc.kind = "allpairs"
+             THEN UNION {UNION {Block(a, k) : k \in Images(b)} : <<a, b>> \in (0..(sc.np - 1)) \X (0..(sc.np - 1))}
+             ELSE Block(v \div sc.ns, v % sc.ns)
+  IN IF sc.kind = "none" THEN TRUE
+     ELSE \A it \in 1..Len(acc) :
+            LET touched == {acc[it][p][2] : p \in {x \in 1..Len(acc[it]) : acc[it][x][1] = want}}
+            IN \A off \in Need(sc.iters[it]) :
+                  sc.fcloc[off + 1] # 0 /\ sc.fcloc[off + 1] \in touched
+
 PreOf(s) ==
   LET acc == Sites[s].acc
       cls == Sites[s].cls
@@ -92,7 +119,7 @@ PreOf(s) ==
       priv == {l \in 1..Len(cls) : cls[l] # "shared"}
   IN [n |-> n, acc |-> ev, cls |-> cls, W |-> W, rel |-> rel, written |-> written,
       lastw |-> lastw, own |-> own, relidx |-> relidx, priv |-> priv,
-      oob |-> Sites[s].oob, parallel |-> Sites[s].parallel]
+      oob |-> Sites[s].oob, parallel |-> Sites[s].parallel, scanok |-> ScanOK(s)]
 
 P == pre
 Acc(i) == pre.acc[i]
@@ -193,6 +220,7 @@ NoUndefinedPrivateRead == badUndef = {}
 ResultIndependentOfSchedule ==
   (done = Iters) => \A l \in P.written : smem[l] = PrevWriter(P.n + 1, l)
 NoOutOfBounds == pre.oob = 0
+ImagesVisited == pre.scanok
 RegionModelled == pre.parallel /\ P.n >= 2
 
 TypeOK ==
